@@ -222,7 +222,7 @@ func newStep(maxBuf int, events []int, freeOracles bool, maxFail int) *stepCtx {
 		e.doEvent(x.event)
 	}
 	// goroutines the event spawned: delayed close after an announce, delayed close after abort
-	zzvrt.RunSpawnedExcept("setHandshakeTimer") // delayed-close closures; timer goroutines stay parked
+	zzvrt.RunAll() // everything the event spawned runs; short delays elapse, handshake timers stay pending (SetTimerLimit in newEnv)
 	zzvrt.Fact("edge", b2i(x.client), x.pre, int(c.smeState))
 	return x
 }
